@@ -330,7 +330,17 @@ func checkMergedView(p *Program, r *Report) {
 				}
 				// the discarded entry's sub-iterator is advanced
 				okAdv := false
+				// the entry removed in this iteration is the one top() showed
+				var lastRem *Term
+				for i, e := range s.Events {
+					if e.Op == "ev" && e.Aux == rem {
+						lastRem = resultOf(s.Events, i)
+					}
+				}
 				for _, e := range s.Events {
+					if e.Op == "ev" && e.Aux == adv && e.Args[1].Op == "fieldof" && lastRem != nil && lastRem != first && e.Args[1].Args[0] == lastRem {
+						okAdv = true
+					}
 					if e.Op == "ev" && e.Aux == adv && e.Args[1] == mk("fieldof", a.idxField, e.Args[1].Typ, lastTop) {
 						okAdv = true
 					}
@@ -409,7 +419,7 @@ func checkMergedView(p *Program, r *Report) {
 	{
 		prod := funcKey(a.producer)
 		delName := "method:(record).IsDeletion"
-		cfg := &simCfg{Event: map[string]bool{prod: true}, Pure: map[string]bool{delName: true}, NoInlineDefault: true}
+		cfg := &simCfg{Event: map[string]bool{prod: true}, Pure: map[string]bool{delName: true}, NoInlineDefault: true, PreciseExits: true}
 		c, _ := runSim(p, a.next, cfg, nil)
 		fk := funcKey(a.next)
 		recv := mk("param", funcKey(a.next)+"."+a.next.Params[0].Name(), nil)
@@ -446,6 +456,24 @@ func checkMergedView(p *Program, r *Report) {
 			switch s.Kind {
 			case "back":
 				nB++
+				if ok, _ := implied(s.St, hide); !ok {
+					// rotated loop (`for ok && suppress && rec.IsDeletion() { ok, err = next() }`):
+					// the test of this iteration is about the previous call's result, which
+					// the loop carries in a variable fed only by the producer's ok results
+					if okVar := phiCarriesResult(p, s.St, true, map[string]bool{prod: true}, 0, false); okVar != nil && s.St.truth(sup) == 1 {
+						delTrue := false
+						for _, k := range sortedFactKeys(s.St) {
+							t := s.St.fterm[k]
+							if s.St.facts[k] && t.Op == "pcall" && t.Aux == delName && len(t.Args) > 0 && t.Args[0] == rec {
+								delTrue = true
+							}
+						}
+						if delTrue {
+							r.ok("DT-SUPPRESS", fk+" / only suppressed deletions are skipped", "skip => ok and IsDeletion and suppress")
+							continue
+						}
+					}
+				}
 				if ok, cex := implied(s.St, hide); !ok {
 					r.violate("DT-SUPPRESS", fk+" / only suppressed deletions are skipped", p.pos(a.next.Pos()), "a record can be skipped although it is not (a deletion in a view that suppresses deletions): "+cex, w)
 				} else {
@@ -924,6 +952,14 @@ func checkHeapSift(p *Program, r *Report, a *mergedAnchors) {
 				return mk("rank", "", types.Typ[types.Int], mk("elem", "", elems[iVar.key].Typ, slice, idx))
 			}
 			inRange := func(idx *Term) *Formula {
+				// the bound the code itself compared the position with (len(heap), or
+				// a local holding it), if it did; otherwise the length of the slice
+				for _, k := range sortedFactKeys(s.St) {
+					t := s.St.fterm[k]
+					if t.Op == "lt" && t.Args[0] == idx && !t.Args[1].containsOp("rank") && t.Args[1].Op != "const" {
+						return fAtom(t)
+					}
+				}
 				return fAtom(tLt(idx, mk("len", "", types.Typ[types.Int], slice)))
 			}
 			l := mk("bin", "+", iVar.Typ, mk("bin", "*", iVar.Typ, two, iVar), one)
